@@ -53,9 +53,14 @@ func (b *backend) Compact(ctx context.Context, revision uint64) (*proto.CompactR
 }
 
 func (b *backend) compact(ctx context.Context, revision uint64) error {
-	err := b.setCompactRecord(ctx, revision)
+	stale, err := b.setCompactRecord(ctx, revision)
 	if err != nil {
 		return err
+	}
+	if stale {
+		// a newer compaction is already recorded: scanning with the older revision
+		// would overwrite the record and lower the compaction floor
+		return nil
 	}
 
 	borders := b.getCompactBorders()
@@ -67,12 +72,14 @@ func (b *backend) compact(ctx context.Context, revision uint64) error {
 	return nil
 }
 
-func (b *backend) setCompactRecord(ctx context.Context, revision uint64) error {
+// setCompactRecord stores revision as the compact revision;
+// stale is true if a newer compact revision is already stored and nothing was written
+func (b *backend) setCompactRecord(ctx context.Context, revision uint64) (stale bool, err error) {
 	// get stored compact revision
 	val, err := b.kv.Get(ctx, getCompactKey(b.config.Prefix))
 	if err != nil && err != storage.ErrKeyNotFound {
 		klog.ErrorS(err, "get compact revision failed")
-		return err
+		return false, err
 	}
 	// stored compact revision is not nil
 	if len(val) > 0 {
@@ -81,7 +88,7 @@ func (b *backend) setCompactRecord(ctx context.Context, revision uint64) error {
 		if compactRevision > revision {
 			klog.InfoS("compact revision too large", "compactRev", compactRevision, "currentRev", revision)
 			// revision has already been compacted
-			return nil
+			return true, nil
 		}
 	}
 	revisionBytes := make([]byte, 8)
@@ -99,9 +106,9 @@ func (b *backend) setCompactRecord(ctx context.Context, revision uint64) error {
 	if err != nil {
 		klog.ErrorS(err, "set compact key failed", "revision", revision)
 		b.metricCli.EmitCounter("backend.set_compact_revision.err", 1)
-		return err
+		return false, err
 	}
-	return nil
+	return false, nil
 }
 
 func (b *backend) getCompactBorders() [][]byte {
